@@ -13,6 +13,8 @@ Definition temp_lcg_mul : Z := 1664525.
 Definition temp_lcg_add : Z := 1013904223.
 (* ioutil.go nextRandom: strconv.Itoa(int(MOD + r%MOD))[1:] *)
 Definition temp_mod : Z := 1000000000.
+(* ioutil.go TempFile/TempDir: 1 iff a pattern containing os.PathSeparator is refused before anything is created *)
+Definition temp_rejects_separator : Z := 0.
 (* ioutil.go TempFile/TempDir: for i := 0; i < N; i++ *)
 Definition temp_attempts : Z := 10000.
 (* ioutil.go TempFile/TempDir: reseed when nconflict > K *)
